@@ -207,11 +207,19 @@ B5LTT5 = _s([0, 1, 1, 0, 1, 0], [1, 1, 0, 1, 1, 2])
 UNIF_B_OTHER_T = _s([0, 1, 1, 0, 1, 1], [2, 2, 0, 2, 2, 0])
 IND_B_OTHER_T = _s([0, 1, 1, 0, 0, 0], [1, 1, 0, 1, 1, 0])
 
+# p in [1/3, 1/2): on a Condorcet cycle a tie is cheaper than the mean of before/after but not than their minimum
+UNIFYING_P0375 = _s([0, 1, .375, 0, 1, .375], [.375, .375, 0, .375, .375, 0])
+# every penalty a multiple of 2**-11 (< 0.001): cost differences below the library's absolute 0.001 tolerances
+TINY = 2.0 ** -11
+UNIFYING_TINY = _s([x * TINY for x in [0, 1, 1, 0, 1, 1]], [x * TINY for x in [1, 1, 0, 1, 1, 0]])
+INDUCED05_TINY = _s([x * TINY for x in [0, 1, .5, 0, 0, 0]], [x * TINY for x in [.5, .5, 0, 0, 0, 0]])
+
 SCHQ = [
     ('unifying', UNIFYING), ('unifying_p05', UNIFYING_05), ('induced', INDUCED), ('induced_p05', INDUCED_05),
     ('pseudo', PSEUDO), ('pseudo_p05', PSEUDO_05), ('extended', EXTENDED), ('unifying_x3', UNIFYING_X3),
     ('induced_x05', INDUCED_X05), ('positional', POSITIONAL), ('zero_heavy', ZERO_HEAVY), ('b3ltb4', B3LTB4),
     ('b5gtt5', B5GTT5), ('b5ltt5', B5LTT5), ('unifB_otherT', UNIF_B_OTHER_T), ('indB_otherT', IND_B_OTHER_T),
+    ('unifying_p0375', UNIFYING_P0375),
 ]
 SCHQ_BY_NAME = dict(SCHQ)
 for _n, (_b, _t) in SCHQ:
